@@ -134,7 +134,12 @@ def decide(case, wctx):
         if ro:
             ro[0].mkdir()
         flags = AuditFlag.NONE if not cfg["audit"] else AuditFlag.PROV
-        sub = Submitter(worker=cfg["worker"], cache_root=d / "childcache", max_concurrent=cfg["k"] or float("inf"),
+        wk = cfg["worker"]
+        if cfg.get("worker_instance") and cfg["worker"] == "cf":
+            # a pre-configured worker object instead of a plugin name + keyword arguments
+            from pydra.workers.cf import ConcurrentFuturesWorker
+            wk, kw = ConcurrentFuturesWorker(n_procs=cfg["n_procs"]), {}
+        sub = Submitter(worker=wk, cache_root=d / "childcache", max_concurrent=cfg["k"] or float("inf"),
                         readonly_caches=ro, propagate_rerun=cfg["propagate"], audit_flags=flags, **kw)
         pkl.write_bytes(cp.dumps({"kind": "submitter", "obj": sub, "task": task}))
         sub.close()
@@ -207,8 +212,9 @@ def run(ctx):
     rng = ctx.rng("gen")
     cases = []
     for i in range(64 if quick else 1500):
-        cfg = {"worker": rng.choice(["debug", "cf"]), "n_procs": rng.choice([1, 2, 4]), "k": rng.choice([None, 1, 3]),
-               "readonly": rng.random() < 0.4, "audit": rng.random() < 0.3, "propagate": rng.random() < 0.5}
+        cfg = {"worker": rng.choice(["debug", "cf"]), "n_procs": rng.choice([1, 2, 3, 5]), "k": rng.choice([None, 1, 3]),
+               "readonly": rng.random() < 0.4, "audit": rng.random() < 0.3, "propagate": rng.random() < 0.5,
+               "worker_instance": rng.random() < 0.5}
         cases.append({"task": gen_task(rng), "obj": ["task", "job", "submitter", "result"][i % 4], "cfg": cfg})
     ctx.rule = ("(task from {term task with container inputs, list task, split+combined task, numpy task, file task, C03 workflow, shell "
                 "task}) x (object kind task/job/submitter/result) x configuration grid; every case is a real cross-interpreter round trip; "
